@@ -329,7 +329,7 @@ func ruleStepUpDown(c *Ctx) {
 			}
 			for si := 0; si < 2; si++ {
 				cond, pos := normCond(iff.Cond, si == 0)
-				if match(cond, pos) && edgeLeadsStraightTo(b.Succs[si], func(*ssa.Return) bool { return true }) {
+				if match(cond, pos) && edgeLeadsStraightTo(b, si, func(*ssa.Return) bool { return true }) {
 					return true
 				}
 			}
